@@ -94,6 +94,7 @@ type exec struct {
 	pureFns map[string]bool
 	noAssume bool
 	wfSeen   map[string]bool
+	cmpSeen  map[*Clause]bool
 	frame    *frameInfo
 	fnName   string
 	fnPos    token.Pos
@@ -216,6 +217,10 @@ func (x *exec) oblig(fr *frame, s *State, kind, label string, pos token.Pos, goa
 		o := &Oblig{Base: base, Kind: kind, Func: x.fnName, pos: pos, Hyp: s.reach, Goal: goal, C: x.c, Props: props, Inputs: x.inputs}
 		if x.con != nil {
 			o.Timeout = x.con.Timeout
+			if props == nil && x.con.ClaimProps[kind] != nil {
+				// obligations of a kind that an `auto` line switched on belong to that line's properties
+				o.Props = x.con.ClaimProps[kind]
+			}
 		}
 		if pos.IsValid() {
 			o.Pos = x.p.Fset.Position(pos)
